@@ -101,6 +101,11 @@ Section Model.
   Definition words_of (d : dict) : list word := map (fun kv => fst (snd kv)) d.
   Definition words_iter (d : dict) : list word := iter_order (words_of d).
 
+  (* MergedDictionary::hash_dictionary: the characters of every word, in iteration order, WITHOUT a
+     separator, fed to the hasher (modelled as the identity); update_document rebuilds the linter of an
+     open document when the list of child hashes differs *)
+  Definition child_stream (d : dict) : list N := concat (words_iter d).
+
   (* dict_from_word_list *)
   Definition dict_from_word_list (t : text) : dict := extend_words [] (lines t).
 
